@@ -53,5 +53,17 @@ Definition ops : list op := [
      | None => vbad end);
   ("seg.close1", fun a => match descs_of_vals a with
      | Some [d; o] => vbool (CanClose d o)
+     | _ => vbad end);
+  (* the same with "noise" arguments: the real side sets fields outside the abstract record (cancel indicator, duration,
+     UPID, components, restriction flags, tier, neighbouring descriptors); the relation does not see them *)
+  ("seg.close1n", fun a => match a with
+     | [vd; vo; VI _; VI _] =>
+       match descs_of_vals [vd; vo] with
+       | Some [d; o] => VL [vbool (CanClose d o); vbool (IsIn d); vbool (IsOut d); vbool (IsIn o); vbool (IsOut o)]
+       | _ => vbad end
+     | _ => vbad end);
+  ("seg.eqn", fun a => match a with
+     | VL ns :: vs => if Nat.eqb (List.length ns) (List.length vs) then
+         match descs_of_vals vs with Some ds => VL (eq_matrix ds) | None => vbad end else vbad
      | _ => vbad end)
 ].
